@@ -291,6 +291,13 @@ def run_sequence(acc):
                 if not (np.array_equal(sp.numpy(), R.bits(n)) and np.array_equal(v.numpy(), R.bits(n)[2 ** n - 2]) and np.array_equal(d.numpy(), R.bits(arch[0]))):
                     acc.viol("indexing:result-depends-on-earlier-calls", dict(layer="sequence", kind=kind, order=list(order), n=n), observed=sp[:4], expected=R.bits(n)[:4])
                     return
+                # what the caller does with a returned space / vector must not leak into later results:
+                # overwrite them in place (directly, and through the documented sample(..., overwrite=True))
+                if n == arch[0]:
+                    call(st.sample, 1, initial_state=d, overwrite=True)
+                sp.fill_(7.0)
+                v.zero_()
+                d.mul_(0).add_(1)
     acc.outcome("sequence")
 
 
